@@ -368,6 +368,14 @@ class BaseDAG(Generic[P, RVDAG]):
         for o_id in out_ids:
             _add_missing_deps(o_id, set_xn_ids)
 
+        # 4.4 an ExecNode can't be provided as an input and requested as an output at the same time
+        overlapping_ids = set(in_ids).intersection(out_ids)
+        if overlapping_ids:
+            raise ValueError(
+                f"ExecNodes {overlapping_ids} are declared as inputs and as outputs. "
+                f"This is ambiguous. Remove them from the inputs or from the outputs."
+            )
+
         # 5.1 copy the ExecNodes that will be in the composed DAG because
         #  maybe the composed DAG will modify them (e.g. change their tags)
         #  and we don't want to modify the original DAG
